@@ -51,7 +51,7 @@ MANIFEST = {
     "design_ref": "DESIGN.md §5 C13",
 }
 EXPLANATION = MANIFEST["level_text"]
-TRUSTED = ["pyvc VC generator; z3 5.1.0 / cvc5 1.0.3", "idealised AEAD (see C12): a sealed token opens iff presented under the same key and AAD", "str.encode() (UTF-8) is injective and preserves the presence of NUL"]
+TRUSTED = ["pyvc VC generator; z3 5.1.0 / cvc5 1.4.0", "idealised AEAD (see C12): a sealed token opens iff presented under the same key and AAD", "str.encode() (UTF-8) is injective and preserves the presence of NUL"]
 ASSUMPTIONS = [
     "stream method names are Python identifiers; the proof only uses: non-empty and NUL-free",
     "domains are NUL-free (as in C12)",
